@@ -1,0 +1,12 @@
+//go:build verif
+
+// Contracts for this plugin, checked by /verif/govc (comment-only file).
+
+package router
+
+//@ func Handler4
+//@   implements handler.Handler4
+//@   modifies everything
+//@   ensures ret0 == resp && !ret1
+//@   ensures[C17:router-always] has(resp.Options, 3) && resp.Options[3] == optenc(opt_ips(3, routers))
+//@   ensures[C17:other-options-untouched] forall k uint8: k != 3 ==> ((has(resp.Options, k) <==> old(has(resp.Options, k))) && resp.Options[k] == old(resp.Options[k]))
